@@ -39,6 +39,11 @@ const (
 
 var actionNames = [...]string{"none", "cancel", "close-once", "close-twice-seq", "close-twice-conc", "close-with-call"}
 
+// epilogueAllowance is the number of operations of each kind enumerated
+// beyond the last operation before Close (Abort = 1 NewMessage + 1 send = 2
+// Writes; one more send / frame for a late Return; one more receive).
+var epilogueAllowance = [nOpKinds]int{opNew: 1, opSend: 2, opRecv: 1, opWrite: 4, opRead: 0}
+
 type calib struct {
 	counts [nOpKinds]int
 	global int // operations that can carry the step trigger (everything but Read)
@@ -126,11 +131,11 @@ func (d *c09) runCell(idx uint64, c cell, seed uint64, desc string) (caseOutcome
 		// Subsequent operation on the connection: must complete, whatever
 		// state the disturbance left the connection in.
 		if c.kind != fkNone || c.action != actNone {
-			// (Resolve first: calling a promised client while its promise
-			// resolves is capnp-core territory, property C11, not C09.)
+			// (The call is issued on the still unresolved bootstrap promise,
+			// racing with its Return.)
 			bc := nb.bootstrap(sc.ctx)
-			nb.resolve(sc.ctx, bc)
 			nb.call("subsequent-echo", sc.ctx, bc, mEcho, 99, nil, false)
+			nb.resolve(sc.ctx, bc)
 			nb.release("subsequent-bootstrap", bc)
 		}
 		close(stopInj)
@@ -138,6 +143,7 @@ func (d *c09) runCell(idx uint64, c cell, seed uint64, desc string) (caseOutcome
 		injWG.Wait()
 		nb.ops.end(id)
 		nb.checkLocksFree("after-scenario")
+		nb.preEpilogue, _, _ = nb.lk.Tracker().snapshot()
 		nb.finish(atomic.LoadInt32(&sc.closed) != 0)
 		sc.cancel()
 		sc.releaseAll()
@@ -184,7 +190,6 @@ func (d *c09) inject(sc *sctx, a closeAction) {
 		go func() {
 			defer wg.Done()
 			bc := b.bootstrap(sc.ctx)
-			b.resolve(sc.ctx, bc)
 			b.call("concurrent-with-close", sc.ctx, bc, mEcho, 5, nil, false)
 			b.release("concurrent-bootstrap", bc)
 		}()
@@ -210,7 +215,17 @@ func (d *c09) calibrate() bool {
 				d.rec.Logf("calibration of %s failed", c)
 				return false
 			}
-			counts, _, _ := b.lk.Tracker().snapshot()
+			// Operations up to the epilogue are deterministic; what Close
+			// adds (Abort, late Returns of cancelled calls, a last receive)
+			// depends on timing, so a fixed allowance is enumerated instead
+			// (cells beyond the operations of a particular run are counted
+			// as faults_not_reached / actions_not_reached).
+			counts := b.preEpilogue
+			for k := opKind(0); k < nOpKinds; k++ {
+				if counts[k] > 0 {
+					counts[k] += epilogueAllowance[k]
+				}
+			}
 			var cb calib
 			cb.counts = counts
 			for k := opKind(0); k < nOpKinds; k++ {
